@@ -315,6 +315,8 @@ async def _drive(spec, tr, wf, ctx=None, start=True):
         st = E.Go(uid=rec.new_uid(), v="r", **(spec.get("start") or {}))
         rec.add("emit", how="external", step=None, bid=None, att=None, uid=st.get("uid"), v="r", type="Go", target=None, parent=None)
         kwargs["start_event"] = st
+    if spec.get("run_id"):
+        kwargs["run_id"] = spec["run_id"]
     handler = wf.run(**kwargs)
     tr.handler = handler
     responders = []
